@@ -165,12 +165,19 @@ def _fork_job(job, tmp):
     pid = os.fork()
     if pid == 0:
         try:
+            dn = os.open(os.devnull, os.O_RDWR)     # pool workers must not keep the driver's pipes open
+            os.dup2(dn, 0); os.dup2(dn, 1); os.dup2(dn, 2)
             try:
                 o = run_job(job, tmp)
             except BaseException as e:  # noqa
                 o = {"id": job["id"], "steps": [], "driver_error": f"{type(e).__name__}: {str(e)[:1000]}"}
             with open(path, "w") as f:
                 f.write(json.dumps(o))
+            import multiprocessing as _mp
+            for c in _mp.active_children():         # Pool.close() does not wait for its workers
+                c.join(2)
+                if c.is_alive():
+                    c.terminate()
         finally:
             os._exit(0)
     return pid, path
